@@ -182,3 +182,330 @@ mod tests {
         assert_eq!(hex::encode(out), "68a985b87eb6b46952128911f2a4412bbc302a9d759667f87f7a21d803f07235");
     }
 }
+
+// =====================================================================
+// Group operations (dynamic over `Grp`); arithmetic, point decoding and the
+// NIST hash-to-curve map come from the curve crates (trusted base).
+// =====================================================================
+
+pub mod grp {
+    use super::HashAlg;
+    use crate::suite::Grp;
+    use curve25519_dalek::montgomery::MontgomeryPoint;
+    use curve25519_dalek::ristretto::{CompressedRistretto, RistrettoPoint};
+    use curve25519_dalek::scalar::Scalar as DScalar;
+    use elliptic_curve::group::Curve as _;
+    use elliptic_curve::hash2curve::{ExpandMsgXmd, FromOkm, GroupDigest};
+    use elliptic_curve::sec1::{FromEncodedPoint, ModulusSize, ToEncodedPoint};
+    use elliptic_curve::{AffinePoint, CurveArithmetic, Field, FieldBytes, FieldBytesSize, PrimeField, ProjectivePoint, PublicKey, Scalar};
+    use generic_array::GenericArray;
+
+    pub fn elem_len(g: Grp) -> usize {
+        match g {
+            Grp::Ristretto255 | Grp::Curve25519 => 32,
+            Grp::P256 => 33,
+            Grp::P384 => 49,
+            Grp::P521 => 67,
+        }
+    }
+    pub fn scalar_len(g: Grp) -> usize {
+        match g {
+            Grp::Ristretto255 | Grp::Curve25519 | Grp::P256 => 32,
+            Grp::P384 => 48,
+            Grp::P521 => 66,
+        }
+    }
+
+    fn n_scalar<C: CurveArithmetic>(b: &[u8]) -> Option<Scalar<C>> {
+        if b.len() != FieldBytes::<C>::default().len() {
+            return None;
+        }
+        Option::from(Scalar::<C>::from_repr(FieldBytes::<C>::clone_from_slice(b)))
+    }
+    fn n_point<C>(b: &[u8]) -> Option<ProjectivePoint<C>>
+    where
+        C: CurveArithmetic,
+        FieldBytesSize<C>: ModulusSize,
+        AffinePoint<C>: FromEncodedPoint<C> + ToEncodedPoint<C>,
+    {
+        PublicKey::<C>::from_sec1_bytes(b).ok().map(|p| p.to_projective())
+    }
+    fn n_enc<C>(p: ProjectivePoint<C>) -> Vec<u8>
+    where
+        C: CurveArithmetic,
+        FieldBytesSize<C>: ModulusSize,
+        AffinePoint<C>: FromEncodedPoint<C> + ToEncodedPoint<C>,
+    {
+        p.to_affine().to_encoded_point(true).as_bytes().to_vec()
+    }
+    fn n_senc<C: CurveArithmetic>(s: Scalar<C>) -> Vec<u8> {
+        s.to_repr().to_vec()
+    }
+    fn n_h2s<C>(h: HashAlg, msg: &[&[u8]], dst: &[u8]) -> Vec<u8>
+    where
+        C: CurveArithmetic,
+        Scalar<C>: FromOkm,
+    {
+        let len = <<Scalar<C> as FromOkm>::Length as generic_array::typenum::Unsigned>::USIZE;
+        let u = h.expand_message_xmd(msg, dst, len);
+        n_senc::<C>(Scalar::<C>::from_okm(GenericArray::from_slice(&u)))
+    }
+
+    /// HashToScalar onto the scalar field of `g`, with expand_message_xmd over `h`
+    pub fn hash_to_scalar(g: Grp, h: HashAlg, msg: &[&[u8]], dst: &[u8]) -> Vec<u8> {
+        match g {
+            Grp::Ristretto255 => {
+                let u = h.expand_message_xmd(msg, dst, 64);
+                let mut w = [0u8; 64];
+                w.copy_from_slice(&u);
+                DScalar::from_bytes_mod_order_wide(&w).to_bytes().to_vec()
+            }
+            Grp::P256 => n_h2s::<p256::NistP256>(h, msg, dst),
+            Grp::P384 => n_h2s::<p384::NistP384>(h, msg, dst),
+            Grp::P521 => n_h2s::<p521::NistP521>(h, msg, dst),
+            Grp::Curve25519 => unreachable!("no HashToScalar on curve25519"),
+        }
+    }
+
+    /// HashToGroup of the OPRF suite `g` (its own hash)
+    pub fn hash_to_group(g: Grp, msg: &[&[u8]], dst: &[u8]) -> Vec<u8> {
+        match g {
+            Grp::Ristretto255 => {
+                let u = HashAlg::Sha512.expand_message_xmd(msg, dst, 64);
+                let mut w = [0u8; 64];
+                w.copy_from_slice(&u);
+                RistrettoPoint::from_uniform_bytes(&w).compress().to_bytes().to_vec()
+            }
+            Grp::P256 => n_enc::<p256::NistP256>(<p256::NistP256 as GroupDigest>::hash_from_bytes::<ExpandMsgXmd<sha2::Sha256>>(msg, &[dst]).expect("h2c")),
+            Grp::P384 => n_enc::<p384::NistP384>(<p384::NistP384 as GroupDigest>::hash_from_bytes::<ExpandMsgXmd<sha2::Sha384>>(msg, &[dst]).expect("h2c")),
+            Grp::P521 => n_enc::<p521::NistP521>(<p521::NistP521 as GroupDigest>::hash_from_bytes::<ExpandMsgXmd<sha2::Sha512>>(msg, &[dst]).expect("h2c")),
+            Grp::Curve25519 => unreachable!(),
+        }
+    }
+
+    /// scalar * element (for curve25519: X25519 with the clamped scalar)
+    pub fn mul(g: Grp, elem: &[u8], scalar: &[u8]) -> Option<Vec<u8>> {
+        match g {
+            Grp::Ristretto255 => {
+                let p = CompressedRistretto::from_slice(elem).ok()?.decompress()?;
+                let s: Option<DScalar> = DScalar::from_canonical_bytes(scalar.try_into().ok()?).into();
+                Some((p * s?).compress().to_bytes().to_vec())
+            }
+            Grp::P256 => Some(n_enc::<p256::NistP256>(n_point::<p256::NistP256>(elem)? * n_scalar::<p256::NistP256>(scalar)?)),
+            Grp::P384 => Some(n_enc::<p384::NistP384>(n_point::<p384::NistP384>(elem)? * n_scalar::<p384::NistP384>(scalar)?)),
+            Grp::P521 => Some(n_enc::<p521::NistP521>(n_point::<p521::NistP521>(elem)? * n_scalar::<p521::NistP521>(scalar)?)),
+            Grp::Curve25519 => {
+                let u: [u8; 32] = elem.try_into().ok()?;
+                let k: [u8; 32] = scalar.try_into().ok()?;
+                Some(MontgomeryPoint(u).mul_clamped(k).to_bytes().to_vec())
+            }
+        }
+    }
+
+    pub fn base_mul(g: Grp, scalar: &[u8]) -> Option<Vec<u8>> {
+        match g {
+            Grp::Ristretto255 => {
+                let s: Option<DScalar> = DScalar::from_canonical_bytes(scalar.try_into().ok()?).into();
+                Some((curve25519_dalek::constants::RISTRETTO_BASEPOINT_POINT * s?).compress().to_bytes().to_vec())
+            }
+            Grp::P256 => Some(n_enc::<p256::NistP256>(ProjectivePoint::<p256::NistP256>::generator() * n_scalar::<p256::NistP256>(scalar)?)),
+            Grp::P384 => Some(n_enc::<p384::NistP384>(ProjectivePoint::<p384::NistP384>::generator() * n_scalar::<p384::NistP384>(scalar)?)),
+            Grp::P521 => Some(n_enc::<p521::NistP521>(ProjectivePoint::<p521::NistP521>::generator() * n_scalar::<p521::NistP521>(scalar)?)),
+            Grp::Curve25519 => {
+                let k: [u8; 32] = scalar.try_into().ok()?;
+                Some(MontgomeryPoint::mul_base_clamped(k).to_bytes().to_vec())
+            }
+        }
+    }
+
+    pub fn invert(g: Grp, scalar: &[u8]) -> Option<Vec<u8>> {
+        match g {
+            Grp::Ristretto255 => {
+                let s: Option<DScalar> = DScalar::from_canonical_bytes(scalar.try_into().ok()?).into();
+                let s = s?;
+                if s == DScalar::ZERO {
+                    return None;
+                }
+                Some(s.invert().to_bytes().to_vec())
+            }
+            Grp::P256 => Option::<_>::from(n_scalar::<p256::NistP256>(scalar)?.invert()).map(n_senc::<p256::NistP256>),
+            Grp::P384 => Option::<_>::from(n_scalar::<p384::NistP384>(scalar)?.invert()).map(n_senc::<p384::NistP384>),
+            Grp::P521 => Option::<_>::from(n_scalar::<p521::NistP521>(scalar)?.invert()).map(n_senc::<p521::NistP521>),
+            Grp::Curve25519 => None,
+        }
+    }
+
+    pub fn scalar_is_zero(scalar: &[u8]) -> bool {
+        scalar.iter().all(|b| *b == 0)
+    }
+    use elliptic_curve::group::Group as _;
+}
+
+// =====================================================================
+// RFC 9497 (OPRF mode 0) and RFC 9807 (OPAQUE-3DH), transcribed.
+// =====================================================================
+
+#[derive(Clone, Copy, Debug)]
+pub struct SuiteB {
+    pub oprf: Grp,
+    pub ke: Grp,
+}
+
+pub struct EnvelopeOut {
+    pub client_sk: Vec<u8>,
+    pub client_pk: Vec<u8>,
+    pub masking_key: Vec<u8>,
+    pub auth_key: Vec<u8>,
+    pub export_key: Vec<u8>,
+    pub auth_tag: Vec<u8>,
+}
+
+pub struct KeOut {
+    pub session_key: Vec<u8>,
+    pub handshake_secret: Vec<u8>,
+    pub km2: Vec<u8>,
+    pub km3: Vec<u8>,
+    pub server_mac: Vec<u8>,
+    pub client_mac: Vec<u8>,
+    pub hash_preamble_mac: Vec<u8>,
+}
+
+impl SuiteB {
+    pub fn h(&self) -> HashAlg {
+        oprf_hash(self.oprf)
+    }
+    pub fn nh(&self) -> usize {
+        self.h().out_len()
+    }
+    pub fn noe(&self) -> usize {
+        grp::elem_len(self.oprf)
+    }
+    pub fn nok(&self) -> usize {
+        grp::scalar_len(self.oprf)
+    }
+    pub fn npk(&self) -> usize {
+        grp::elem_len(self.ke)
+    }
+    pub fn nsk(&self) -> usize {
+        grp::scalar_len(self.ke)
+    }
+    fn ctx(&self) -> Vec<u8> {
+        oprf_context_string(self.oprf)
+    }
+    fn dst(&self, prefix: &[u8]) -> Vec<u8> {
+        let mut d = prefix.to_vec();
+        d.extend_from_slice(&self.ctx());
+        d
+    }
+
+    // ---- RFC 9497
+    /// Blind: blindedElement = blind * HashToGroup(input)
+    pub fn blind(&self, input: &[u8], blind: &[u8]) -> Option<Vec<u8>> {
+        let p = grp::hash_to_group(self.oprf, &[input], &self.dst(b"HashToGroup-"));
+        grp::mul(self.oprf, &p, blind)
+    }
+    /// BlindEvaluate: evaluatedElement = skS * blindedElement
+    pub fn blind_evaluate(&self, sk: &[u8], blinded: &[u8]) -> Option<Vec<u8>> {
+        grp::mul(self.oprf, blinded, sk)
+    }
+    /// Finalize
+    pub fn finalize(&self, input: &[u8], blind: &[u8], evaluated: &[u8]) -> Option<Vec<u8>> {
+        let inv = grp::invert(self.oprf, blind)?;
+        let n = grp::mul(self.oprf, evaluated, &inv)?;
+        Some(self.h().hash(&[&i2osp(input.len(), 2), input, &i2osp(n.len(), 2), &n, b"Finalize"]))
+    }
+    /// DeriveKeyPair(seed, info) onto the scalar field of `g` (OPRF context string and hash)
+    pub fn derive_key_pair(&self, g: Grp, seed: &[u8], info: &[u8]) -> Option<Vec<u8>> {
+        let dst = self.dst(b"DeriveKeyPair");
+        for counter in 0..=255usize {
+            let sk = grp::hash_to_scalar(g, self.h(), &[seed, &i2osp(info.len(), 2), info, &i2osp(counter, 1)], &dst);
+            if !grp::scalar_is_zero(&sk) {
+                return Some(sk);
+            }
+        }
+        None
+    }
+
+    // ---- RFC 9807
+    pub fn oprf_key(&self, oprf_seed: &[u8], cred_id: &[u8]) -> Option<Vec<u8>> {
+        let seed = self.h().hkdf_expand(oprf_seed, &[cred_id, b"OprfKey"], self.nok());
+        self.derive_key_pair(self.oprf, &seed, b"OPAQUE-DeriveKeyPair")
+    }
+    /// DeriveDiffieHellmanKeyPair(seed) -> (sk, pk)
+    pub fn derive_dh_keypair(&self, seed: &[u8]) -> Option<(Vec<u8>, Vec<u8>)> {
+        let sk = match self.ke {
+            Grp::Curve25519 => {
+                // RFC 7748 clamping of the seed
+                let mut k = seed.to_vec();
+                if k.len() != 32 {
+                    return None;
+                }
+                k[0] &= 248;
+                k[31] &= 127;
+                k[31] |= 64;
+                k
+            }
+            g => self.derive_key_pair(g, seed, b"OPAQUE-DeriveDiffieHellmanKeyPair")?,
+        };
+        let pk = grp::base_mul(self.ke, &sk)?;
+        Some((sk, pk))
+    }
+    pub fn dh(&self, sk: &[u8], pk: &[u8]) -> Option<Vec<u8>> {
+        grp::mul(self.ke, pk, sk)
+    }
+    pub fn randomized_pwd(&self, oprf_output: &[u8], stretched: &[u8]) -> Vec<u8> {
+        self.h().hkdf_extract(b"", &[oprf_output, stretched])
+    }
+    /// Store (envelope creation); `id_u`/`id_s` None = the party's public key
+    pub fn envelope(&self, randomized_pwd: &[u8], nonce: &[u8], server_pk: &[u8], id_u: Option<&[u8]>, id_s: Option<&[u8]>) -> Option<EnvelopeOut> {
+        let h = self.h();
+        let nh = self.nh();
+        let masking_key = h.hkdf_expand(randomized_pwd, &[b"MaskingKey"], nh);
+        let auth_key = h.hkdf_expand(randomized_pwd, &[nonce, b"AuthKey"], nh);
+        let export_key = h.hkdf_expand(randomized_pwd, &[nonce, b"ExportKey"], nh);
+        let seed = h.hkdf_expand(randomized_pwd, &[nonce, b"PrivateKey"], self.nsk());
+        let (client_sk, client_pk) = self.derive_dh_keypair(&seed)?;
+        let id_u = id_u.unwrap_or(&client_pk).to_vec();
+        let id_s = id_s.unwrap_or(server_pk).to_vec();
+        let auth_tag = h.hmac(&auth_key, &[nonce, server_pk, &i2osp(id_s.len(), 2), &id_s, &i2osp(id_u.len(), 2), &id_u]);
+        Some(EnvelopeOut { client_sk, client_pk, masking_key, auth_key, export_key, auth_tag })
+    }
+    pub fn masked_response(&self, masking_key: &[u8], masking_nonce: &[u8], server_pk: &[u8], envelope: &[u8]) -> Vec<u8> {
+        let pad = credential_response_pad(self.h(), masking_key, masking_nonce, self.npk() + 32 + self.nh());
+        pad.iter().zip(server_pk.iter().chain(envelope.iter())).map(|(a, b)| a ^ b).collect()
+    }
+    fn expand_label(&self, secret: &[u8], label: &[u8], context: &[u8]) -> Vec<u8> {
+        let n = self.nh();
+        let mut full = b"OPAQUE-".to_vec();
+        full.extend_from_slice(label);
+        self.h().hkdf_expand(secret, &[&i2osp(n, 2), &i2osp(full.len(), 1), &full, &i2osp(context.len(), 1), context], n)
+    }
+    pub fn preamble(&self, context: &[u8], id_u: &[u8], ke1: &[u8], id_s: &[u8], cred_response: &[u8], server_nonce: &[u8], server_e_pk: &[u8]) -> Vec<u8> {
+        let mut p = b"OPAQUEv1-".to_vec();
+        p.extend(i2osp(context.len(), 2));
+        p.extend_from_slice(context);
+        p.extend(i2osp(id_u.len(), 2));
+        p.extend_from_slice(id_u);
+        p.extend_from_slice(ke1);
+        p.extend(i2osp(id_s.len(), 2));
+        p.extend_from_slice(id_s);
+        p.extend_from_slice(cred_response);
+        p.extend_from_slice(server_nonce);
+        p.extend_from_slice(server_e_pk);
+        p
+    }
+    /// key schedule from the three DH values (already in RFC order) and the preamble
+    pub fn key_schedule(&self, dh1: &[u8], dh2: &[u8], dh3: &[u8], preamble: &[u8]) -> KeOut {
+        let h = self.h();
+        let prk = h.hkdf_extract(b"", &[dh1, dh2, dh3]);
+        let hp = h.hash(&[preamble]);
+        let handshake_secret = self.expand_label(&prk, b"HandshakeSecret", &hp);
+        let session_key = self.expand_label(&prk, b"SessionKey", &hp);
+        let km2 = self.expand_label(&handshake_secret, b"ServerMAC", b"");
+        let km3 = self.expand_label(&handshake_secret, b"ClientMAC", b"");
+        let server_mac = h.hmac(&km2, &[&hp]);
+        let hpm = h.hash(&[preamble, &server_mac]);
+        let client_mac = h.hmac(&km3, &[&hpm]);
+        KeOut { session_key, handshake_secret, km2, km3, server_mac, client_mac, hash_preamble_mac: hpm }
+    }
+}
